@@ -134,6 +134,9 @@ def check_split(case) -> Result:
     exact = dyadic and u2 == dt[1] and T2[1] == dt[1]
     if not exact:
         m = _near_threshold(case, mdl, b, dt_si)
+        w_init = U.si('AngularSpeed', *case['init']['speed'])
+        if mdl.self_locking and w_init != 0:
+            m = min(m, abs(mdl.cum_ratio(0) * w_init) / mdl.w0)
         if m < 1e-6:
             res.classes += ('near-threshold-discarded',)
             # the time axis is still comparable
